@@ -85,11 +85,11 @@ Definition coherent (c fs : fmap) : Prop :=
 (* ---------- clauses ---------- *)
 (* 1: every prefix of the write sequence is a possible crash point *)
 Definition every_prefix_valid (e : env) (fs : fmap) (ws : list write) : Prop :=
-  forall pre suf, ws = pre ++ suf -> validb e (apply_writes pre fs) = true.
+  forall pre suf, ws = pre ++ suf -> validb e (apply_writes e pre fs) = true.
 Fixpoint prefixes_validb (e : env) (fs : fmap) (ws : list write) : bool :=
   match ws with
   | [] => true
-  | w :: r => validb e (apply_write fs w) && prefixes_validb e (apply_write fs w) r
+  | w :: r => validb e (apply_write e fs w) && prefixes_validb e (apply_write e fs w) r
   end.
 
 (* 2: every updated file holds its target value *)
@@ -103,16 +103,17 @@ Definition final_okb (fin : fmap) (us : list updater) : bool :=
 Definition target_val (fs : fmap) (us : list updater) (k : Z) : Z := get (target_of fs us) k.
 Definition needed_write (fs : fmap) (us : list updater) (w : write) : bool :=
   inb (fst w) (map ukey us) && negb (get fs (fst w) =? target_val fs us (fst w)).
-Fixpoint writes_changeb (fs : fmap) (ws : list write) : bool :=
+Fixpoint writes_changeb (e : env) (fs : fmap) (ws : list write) : bool :=
   match ws with
   | [] => true
-  | w :: r => negb (get fs (fst w) =? norm (snd w)) && writes_changeb (apply_write fs w) r
+  | w :: r => negb (get fs (fst w) =? norm_at e (fst w) (snd w)) && writes_changeb e (apply_write e fs w) r
   end.
-Definition no_redundant (fs : fmap) (us : list updater) (ws : list write) : Prop :=
+Definition no_redundant (e : env) (fs : fmap) (us : list updater) (ws : list write) : Prop :=
   (forall w, In w ws -> In (fst w) (map ukey us) /\ get fs (fst w) <> target_val fs us (fst w))
-  /\ (forall pre w suf, ws = pre ++ w :: suf -> get (apply_writes pre fs) (fst w) <> norm (snd w)).
-Definition no_redundantb (fs : fmap) (us : list updater) (ws : list write) : bool :=
-  forallb (needed_write fs us) ws && writes_changeb fs ws.
+  /\ (forall pre w suf, ws = pre ++ w :: suf ->
+        get (apply_writes e pre fs) (fst w) <> norm_at e (fst w) (snd w)).
+Definition no_redundantb (e : env) (fs : fmap) (us : list updater) (ws : list write) : bool :=
+  forallb (needed_write fs us) ws && writes_changeb e fs ws.
 
 (* 4: nothing else happened to the files *)
 Definition same_on (ks : list Z) (a b : fmap) : Prop := forall k, In k ks -> get a k = get b k.
@@ -123,22 +124,20 @@ Definition legal_write (e : env) (w : write) : bool := vok (kindof e (fst w)) (s
 Definition legal (e : env) (ws : list write) : Prop := forall w, In w ws -> legal_write e w = true.
 Definition legalb (e : env) (ws : list write) : bool := forallb (legal_write e) ws.
 
-(* the writes that violate clause 3 / 5 (used to recognise the shape of a known finding) *)
-Definition on_q (e : env) (w : write) : bool := is_q e (kindof e (fst w)).
 
 (* ---------- the property of one batch ---------- *)
 Definition C12_batch (e : env) (fs : fmap) (levels : list (list updater)) (ws : list write) (fin : fmap) : Prop :=
   every_prefix_valid e fs ws
   /\ final_ok fin (concat levels)
-  /\ same_on (files_of e) fin (apply_writes ws fs)
-  /\ no_redundant fs (concat levels) ws
+  /\ same_on (files_of e) fin (apply_writes e ws fs)
+  /\ no_redundant e fs (concat levels) ws
   /\ legal e ws.
 
 Definition prop_code (e : env) (fs : fmap) (levels : list (list updater)) (ws : list write) (fin : fmap) : Z :=
   if negb (prefixes_validb e fs ws) then 1
   else if negb (final_okb fin (concat levels)) then 2
-  else if negb (same_onb (files_of e) fin (apply_writes ws fs)) then 4
-  else if negb (no_redundantb fs (concat levels) ws) then 3
+  else if negb (same_onb (files_of e) fin (apply_writes e ws fs)) then 4
+  else if negb (no_redundantb e fs (concat levels) ws) then 3
   else if negb (legalb e ws) then 5
   else 0.
 
